@@ -161,6 +161,7 @@ type World struct {
 	Seen             []*Flight // every message ever put on the wire (honest and adversarial)
 	Clock            uint64
 	GST              bool
+	inDelivery       bool // a node's message handler is running (midHandler may let its main loop act)
 	Rng              *rand.Rand
 	Mon              *Monitors
 	Trace            []StepRec
@@ -210,12 +211,14 @@ func (w *World) newNode(id string) *Node {
 	n.Mem = &spi.Membership{Me: id, Log: w.Log, Committee: w.Cfg.Committee, KeyedByRefTime: true}
 	comm := &spi.Comm{Node: id, Log: w.Log, OnSend: func(to []string, m *interfaces.ConsensusRawMessage) { w.onSend(n, to, m) }}
 	n.Comm = comm
+	km := w.Keys.Signer(id)
+	km.AfterVerify = func() { w.midHandler(n) }
 	cfg := &interfaces.Config{
 		InstanceId:              spi.InstanceId,
 		Communication:           comm,
 		Membership:              n.Mem,
 		BlockUtils:              n.BU,
-		KeyManager:              w.Keys.Signer(id),
+		KeyManager:              km,
 		Storage:                 n.Store,
 		OverrideElectionTrigger: n.ES,
 	}
@@ -391,6 +394,26 @@ func (w *World) DrainPending() {
 	}
 }
 
+// midHandler runs between two signature verifications inside one of node n's message handlers: now and then (split hand-off
+// worlds only) the node's main loop handles the expiry of the armed election timer at that very moment — it cancels the contexts
+// of the view and queues the trigger for the worker, which is still inside the handler.
+func (w *World) midHandler(n *Node) {
+	if !w.SplitHandoff || !w.inDelivery || n.pendTrig != nil || !n.ES.Armed || n.ES.cb == nil || w.Rng.Intn(24) != 0 {
+		return
+	}
+	h, v, cb := n.ES.H, n.ES.V, n.ES.cb
+	target := state.NewHeightView(primitives.BlockHeight(h), primitives.View(v+1))
+	n.ES.Armed = false
+	n.St.Contexts.CancelOlderThan(target)
+	if _, err := n.St.Contexts.For(target); err != nil {
+		return
+	}
+	n.pendTrig = &interfaces.ElectionTrigger{Hv: state.NewHeightView(primitives.BlockHeight(h), primitives.View(v)), MoveToNextLeader: func() { cb(primitives.BlockHeight(h), primitives.View(v), nil) }}
+	n.pendTrigHV = [2]uint64{h, v}
+	w.Mon.Stats["election timers handled by the main loop in the middle of a message handler"]++
+	w.trace("timeout-main-mid-handler", n.Id, "", fmt.Sprintf("h=%d v=%d", h, v))
+}
+
 // Timeout fires the node's armed election timer (main-loop mimic + worker arm).
 func (w *World) Timeout(n *Node) bool {
 	n.gc()
@@ -428,7 +451,9 @@ func (w *World) Deliver(f *Flight) {
 		w.trace("deliver", n.Id, f.From, Describe(f))
 	}
 	before := n.Panics
+	w.inDelivery = true
 	w.guard(n, "deliver", func() { n.W.VerifDeliver(f.Raw) })
+	w.inDelivery = false
 	w.Mon.PostDelivery(d, w.Log.Ev[mark:], n.Panics > before)
 }
 
